@@ -41,6 +41,13 @@ def work(lane):
         try:
             rc, out = sh("git apply %s/patch.diff" % d, repo, env)
             if rc != 0:
+                # written against an earlier HEAD (a later fix: commit touched a neighbouring line): three-way merge
+                sh("git reset -q --hard && git clean -qfd", repo, env)
+                rc, out = sh("git apply --3way %s/patch.diff && git reset -q" % d, repo, env)
+                res["applied_with_3way"] = rc == 0
+                if rc != 0:
+                    sh("git reset -q --hard && git clean -qfd", repo, env)
+            if rc != 0:
                 res["apply"] = "FAILED: " + out[-300:]
             else:
                 rc, out = sh(SUITE, repo, env)
@@ -51,7 +58,7 @@ def work(lane):
                     lines = [l for l in out.splitlines() if l.startswith(("VIOLATION", "OK ", "INCONCLUSIVE", "KNOWN", "  "))]
                     res["checks"][c] = {"rc": rc, "out": [l[:1500] for l in lines[:3]]}
         finally:
-            sh("git checkout -q -- . && git clean -qfd", repo, env)
+            sh("git reset -q --hard && git clean -qfd", repo, env)
         json.dump(res, open(d + "/result.json", "w"), indent=1)
         verdict = {k: ("silent" if v["rc"] == 0 else ("ALARM" if v["rc"] == 1 else "rc=%s" % v["rc"])) for k, v in res.get("checks", {}).items()}
         print(n, res.get("apply", ""), res.get("existing_suite_with_change", ""), verdict, flush=True)
